@@ -1,5 +1,5 @@
 /*VERIF
-{ "tu": "src/queue.c", "enforce": "dispatch_block_wait", "props": ["C19"], "nondet_volatile": true, "timeout": 200,
+{ "tu": "src/queue.c", "enforce": "dispatch_block_wait", "props": ["C19", "C17"], "nondet_volatile": true, "timeout": 200,
   "stub_note": "dispatch_group_wait (contract in C07): arbitrary result, logged; priority/override bookkeeping: stubs" }
 VERIF*/
 #ifdef VERIF_PRE
@@ -9,6 +9,7 @@ VERIF*/
 extern const volatile void *H_flags_p;
 #else
 #include "contracts/C19/block_common.h"
+#define DBQ_P ((const volatile void *)&H_dbpd.dbpd_queue)
 const volatile void *H_flags_p; long H_wait_result; dispatch_time_t H_wait_timeout; unsigned H_group_waits;
 long dispatch_group_wait(dispatch_group_t dg, dispatch_time_t timeout) { if (dg != &H_grp) H_leave_wrong_group = 1; H_group_waits++; H_wait_timeout = timeout; H_wait_result = ND_BOOL() ? 0 : -1; __verif_event(EV_CALL, 0, dg, 71, 0); return H_wait_result; }
 static inline pthread_priority_t _dispatch_get_priority(void) { return 0; }
@@ -20,6 +21,12 @@ VERIF_CONTRACT(intptr_t, dispatch_block_wait, (dispatch_block_t db, dispatch_tim
   ENS(marks_the_block_as_being_waited_for_first, __verif_n >= 1 && IS_COMMIT(0, FLAGS_P) && LOGB(0) == (LOGA(0) | DBF_WAITING) && !(LOGA(0) & (DBF_WAITED | DBF_WAITING)))
   /* the result is exactly that of waiting on the block's private group (zero only after the completion left it; non-zero only after the full timeout: C07) */
   ENS(result_is_the_private_groups_wait_with_the_same_timeout, H_group_waits == 1 && !H_leave_wrong_group && H_wait_timeout == timeout && __CPROVER_return_value == H_wait_result)
+  /* C17: the queue recorded in the block carries the +2 taken at submission.  The wait takes it out of the block with ONE exchange, hands the +2 to exactly one
+   * CONSUME_2 wakeup of that queue, and NEVER puts the pointer back (also not after a timeout): a pointer put back without a reference is released twice by the
+   * block's completion */
+  ENS(the_recorded_queue_is_taken_out_once_its_plus_two_consumed_by_one_wakeup_and_never_put_back, __verif_n >= 4 && IS_COMMIT(1, DBQ_P) && LOGB(1) == 0
+        && (LOGA(1) != 0 ? (__verif_n == 5 && LOGK(2) == EV_WAKEUP && LOGP(2) == (void *)(uintptr_t)LOGA(1) && (LOGA(2) & DISPATCH_WAKEUP_CONSUME_2) && (LOGA(2) & DISPATCH_WAKEUP_BLOCK_WAIT) && LOGK(3) == EV_CALL)
+                         : (__verif_n == 4 && LOGK(2) == EV_CALL)))
   ENS(timeout_clears_only_the_waiting_mark, VIMPL(__CPROVER_return_value != 0, IS_COMMIT(LAST, FLAGS_P) && LOGB(LAST) == (LOGA(LAST) & ~(unsigned long long)DBF_WAITING & 0xffffffffull)))
   ENS(success_marks_the_block_as_waited, VIMPL(__CPROVER_return_value == 0, IS_COMMIT(LAST, FLAGS_P) && LOGB(LAST) == (LOGA(LAST) | DBF_WAITED)))
 )
@@ -31,6 +38,7 @@ void harness(void)
 	intptr_t r = dispatch_block_wait((dispatch_block_t)h_body, t);
 	VERIF_POST(dispatch_block_wait, r, (dispatch_block_t)h_body, t);
 	VERIF_REACH(timed_out, r != 0);
+	VERIF_REACH(timed_out_with_a_recorded_queue, r != 0 && __verif_n == 5);
 	VERIF_CANARY();
 }
 #endif
